@@ -177,10 +177,12 @@ def run_harness_chunk(exe, lines, args, timeout=600):
             err = p.stderr
             for mm in re.finditer(r"Time limit exceeded in ([^\s:]+):(\d+)", err):
                 TIMEOUT_SITES.add("%s:%s" % (os.path.basename(mm.group(1)), mm.group(2)))
+            via = timeout_paths(err)
         except subprocess.TimeoutExpired as ex:
             out = (ex.stdout or b"").decode(errors="replace").split("\n") if isinstance(ex.stdout, bytes) else (ex.stdout or "").split("\n")
             rc = -9
             err = "harness timeout after %ds" % timeout
+            via = {}
         if out and out[-1] == "":
             out.pop()
         marker = [l for l in out if l.startswith("!crash")]
@@ -192,7 +194,9 @@ def run_harness_chunk(exe, lines, args, timeout=600):
             m = re.match(r"#(\d+) (.*)$", l)
             if m:
                 # a crash while an op runs leaves "#k " without newline followed by the marker; handled below
-                got[int(m.group(1))] = m.group(2)
+                k0 = int(m.group(1))
+                # the unwinding path of a timeout (files of the CMR_CALL sites that passed it on, innermost first)
+                got[k0] = m.group(2) + ((" via=" + via[k0]) if k0 in via and "err:TIMEOUT" in m.group(2)[:12] else "")
             elif l.startswith("!crash") or re.match(r"#\d+ ?$", l):
                 pass
             else:
@@ -210,6 +214,14 @@ def run_harness_chunk(exe, lines, args, timeout=600):
             break
         if k >= n:
             culprit = bisect_exit_failure(exe, lines[start:], args, env, timeout)
+            # the report of the whole chunk may mix several leaking ops: re-run the culprit on its own
+            try:
+                p1 = subprocess.run([exe] + args, input=lines[start + culprit] + "\n", stdout=subprocess.PIPE, stderr=subprocess.PIPE,
+                                    text=True, env=env, timeout=timeout, errors="replace")
+                if p1.returncode != 0:
+                    err = p1.stderr
+            except subprocess.TimeoutExpired:
+                pass
             summ = summarize_stderr(err)
             for i in range(n):
                 results.append("crash:exit rc=%d %s" % (rc, summ) if i == culprit else answered[i])
@@ -242,8 +254,57 @@ def bisect_exit_failure(exe, lines, args, env, timeout):
     return hi
 
 
+def timeout_paths(err):
+    """stderr of the harness carries '@@k' before op k; returns {k: 'file>file>...'} for ops whose segment contains the library's
+    'Time limit exceeded in file:line' messages (consecutive duplicates of a file removed; line numbers dropped: they move with edits)"""
+    res = {}
+    cur = None
+    files = []
+    def flush():
+        if cur is not None and files:
+            path = []
+            for f in files:
+                if not path or path[-1] != f:
+                    path.append(f)
+            res[cur] = ">".join(path[:8])
+    for l in (err or "").split("\n"):
+        # the library does not terminate its messages with a newline before the next one: split on the marker inside lines, too
+        for part in re.split(r"(@@\d+)", l):
+            m = re.fullmatch(r"@@(\d+)", part)
+            if m:
+                flush(); cur = int(m.group(1)); files = []
+            else:
+                for mm in re.finditer(r"Time limit exceeded in ([^\s:]+):(\d+)", part):
+                    files.append(os.path.basename(mm.group(1)))
+    flush()
+    return res
+
+
+def leak_chains(err):
+    """allocation call chains of LeakSanitizer's direct leaks: library functions only, allocator frames dropped"""
+    chains = []
+    for blk in re.split(r"\n(?=Direct leak|Indirect leak)", err):
+        if not blk.startswith("Direct leak"):
+            continue
+        fns = []
+        for mm in re.finditer(r"#\d+ 0x[0-9a-f]+ in (\w+) [^\n]*?(\w+\.c):\d+", blk):
+            fn, f = mm.group(1), mm.group(2)
+            if f in ("env.c",) or f.startswith("cmrh") or f.startswith("ops_") or f == "wrap.c" or fn.startswith("__"):
+                continue
+            fns.append(fn)
+        if fns:
+            c = "<".join(fns[:4])
+            if c not in chains:
+                chains.append(c)
+    return chains
+
+
 def summarize_stderr(err):
     err = err or ""
+    if "LeakSanitizer" in err:
+        ch = leak_chains(err)
+        if ch:
+            return "LeakSanitizer[%s]" % "|".join(sorted(ch)[:4])
     m = re.search(r"Assertion `(.*?)' failed", err)
     if m:
         loc = re.search(r"(\w+\.c):(\d+): (\w+): Assertion", err)
@@ -393,6 +454,9 @@ class Run:
                 if k:
                     e = self.known_hits.setdefault(k["id"], [k, 0, l])
                     e[1] += 1
+                    if os.environ.get("VERIF_DUMP_KNOWN"):
+                        with open(os.environ["VERIF_DUMP_KNOWN"], "a") as fh:
+                            fh.write(json.dumps({"id": k["id"], "op": l, "result": r[-400:], "verdict": v[:300]}) + "\n")
                 else:
                     nfail += 1
                     self.failures.append((l, r, v, flavour, list(hargs)))
